@@ -113,6 +113,8 @@ def dispatch_execute(scn, rng):
     if k == "dag":
         from .. import walks
         return walks.run_dag(scn)
+    if k == "solo":
+        return exdrv.run_solo_reuse(scn)
     return ex_execute(scn, rng)
 
 
